@@ -38,6 +38,12 @@ var preludeForms = []string{
 	// a tail loop that only fails when it is entered with -1: called as a callback, an EARLIER invocation loops
 	// (frames are reused) and a LATER one fails
 	"(defun tailwalk (n) (if (<= n 0) (if (= n -1) (car 5) 0) (tailwalk (- n 1))))",
+	// tail loops whose LATER turn cannot be bound (fix 4224554): the failing call is the tail call, not the loop's first call
+	"(defun tailfew (n) (if (<= n 0) 0 (tailfew)))",
+	"(defun tailmany (n) (if (<= n 0) 0 (tailmany (- n 1) 2)))",
+	"(defun tailfew2 (n) (if (<= n 1) (tailfew2) (tailfew2 (- n 1))))",
+	"(defun tailmutb (n) (tailmuta))",
+	"(defun tailmuta (n) (if (<= n 0) 0 (tailmutb (- n 1))))",
 }
 
 type leaf struct {
@@ -70,6 +76,10 @@ var leaves = []leaf{
 	{"tail-recursion", "(tailrec 2)", true},
 	{"callback-after-tail-loop-map", "(map 'list tailwalk '(2 -1))", true},
 	{"callback-after-tail-loop-foldl", "(foldl (lambda (a x) (tailwalk x)) 0 '(3 2 -1))", true},
+	{"tail-call-too-few", "(tailfew 1)", true},
+	{"tail-call-too-many", "(tailmany 1)", true},
+	{"tail-call-too-few-third-turn", "(tailfew2 3)", true},
+	{"tail-call-too-few-mutual", "(tailmuta 2)", true},
 	{"callback-after-tail-loop-map-lambda", "(map 'list (lambda (x) (+ 1 (tailwalk x))) '(2 -1))", true},
 }
 
